@@ -113,6 +113,26 @@ def run(rep, tier):
         rep.ok("C13.R2", tf, "exit callbacks run exactly once on every normal return (including after a swallowed thread_interrupted)")
     else:
         rep.bad("C13.R2", tf, tf.loc, "exit-callbacks", "thread function returns with the exit callbacks run %s times: a joiner is never resumed / resumed twice" % sorted(cf.exits))
+    # the thread function itself is invoked (once, inside the try block) before the callbacks run
+    fpar = tf.params[0]["name"] if tf.params else None
+    inv = [(b, i, ev) for b, i, ev in tf.all_events() if ev.get("k") == "call" and fpar and ev.get("recv") is not None and P(ev["recv"]) == fpar and
+           (callee_of(ev).endswith("::operator()") or ev.get("op") == "()")]
+    if not inv:
+        inv = [(b, i, ev) for b, i, ev in tf.all_events() if ev.get("k") == "call" and fpar and re.match(r"^(invoke_impl\{)?%s\}?\(" % re.escape(fpar), T(ev))]
+    # the run on the normal path: the one in a block that returns
+    runs = [(b, i) for b, i, ev in tf.all_events() if is_run(ev) and any(x.get("k") == "return" for x in tf.blocks[b].events)]
+    # (an exception edge leaves the call before it completes, so "precedes on all paths" is asked without the exception edges)
+    from engine.kinds import precedes_on_all_paths as _ppa2
+    def _pre(pos):
+        try:
+            return _ppa2(tf, lambda e: e is inv[0][2], pos, eh=False)
+        except TypeError:
+            return True
+    if inv and all(ev.get("try") is not None for _, _, ev in inv) and runs and all(_pre(p_) for p_ in runs):
+        rep.ok("C13.R2", tf, "the thread function is invoked inside the try block, before the exit callbacks")
+    else:
+        rep.bad("C13.R2", tf, tf.loc, "function-not-invoked", "thread_function_nullary does not invoke the thread function inside its try block before running the exit callbacks: "
+                "join() returns although the thread function never ran / an exception of it escapes")
     rethrows = [(b, i, ev) for b, i, ev in tf.all_events() if ev.get("k") == "throw" and ev.get("e") is None]
     def run_before_rethrow(b, i):
         # every path from a handler entry to the rethrow at (b, i) executes the callbacks (block granular)
@@ -265,6 +285,33 @@ def run(rep, tier):
         rep.ok("C13.R5", ip, "throws thread_interrupted only when enabled && requested, after clearing the request")
     else:
         rep.bad("C13.R5", ip, loc_of(thr[0][2]), "interruption-point", "interruption must be delivered only when enabled (%s) and requested (%s), clearing the request first (%s)" % (en, rq, rq_cleared))
+    # the same function as a truth table over (enabled, requested, throw_on_interrupt): delivered (throw) exactly when all three hold,
+    # 'true' (interrupted, caller handles it) when enabled && requested && !throw_on_interrupt, 'false' otherwise
+    from engine.kinds import eval_walk as _ew5
+    tp = [p_["name"] for p_ in ip.params if "bool" in str(p_.get("type", ""))]
+    if len(tp) != 1:
+        raise AnalysisBroken("interruption_point: the throw_on_interrupt parameter was not identified")
+    wrong = []
+    for en_ in (False, True):
+        for rq_ in (False, True):
+            for th_ in (False, True):
+                env = {"this->enabled_interrupt_": en_, "this->requested_interrupt_": rq_, tp[0]: th_}
+                outs = set()
+                for evs, end in _ew5(ip, ip.entry, atom_env=env, tree_env=env):
+                    if end == "throw":
+                        outs.add("throw")
+                    elif end == "return" and evs[-1][2].get("e") is not None and strip(evs[-1][2]["e"]).get("k") == "lit":
+                        outs.add(str(strip(evs[-1][2]["e"]).get("v")))
+                    else:
+                        outs.add("?" + end)
+                want = "throw" if (en_ and rq_ and th_) else ("True" if (en_ and rq_) else "False")
+                if outs != {want}:
+                    wrong.append(((en_, rq_, th_), sorted(outs), want))
+    if wrong:
+        rep.bad("C13.R5", ip, ip.loc, "interruption-table", "interruption_point(enabled, requested, throw_on_interrupt) = %s gives %s, expected %s: an accepted interruption request is not "
+                "delivered at an interruption point / is delivered when it must not be" % wrong[0])
+    else:
+        rep.ok("C13.R5", ip, "interruption_point: throw / true / false exactly as (enabled && requested && throw_on_interrupt) / (enabled && requested) / otherwise (8 valuations)")
     H = facts(rep, lib("threading_base", "src/thread_data.cpp"), [r"^pika::threads::detail::thread_data::interrupt$"])
     it = [f for f in H.find(r"thread_data::interrupt$") if not f.pattern]
     if not it:
